@@ -1,0 +1,53 @@
+//go:build verif
+
+package ssh
+
+import (
+	"io"
+	"net"
+)
+
+// Hooks for the /verif harness, property C30 (strict key exchange). Add-only; built only with -tags verif.
+
+// VerifHandshake is a handshakeTransport over the real transport (packet framing, ciphers, sequence
+// numbers), built exactly as clientHandshake / serverHandshake build it after the version exchange.
+type VerifHandshake struct {
+	t  *handshakeTransport
+	tr *transport
+}
+
+// VerifNewClientHandshake mirrors connection.clientHandshake after exchangeVersions.
+func VerifNewClientHandshake(conn io.ReadWriteCloser, clientVersion, serverVersion []byte, config *ClientConfig) *VerifHandshake {
+	conf := *config
+	conf.SetDefaults()
+	tr := newTransport(conn, conf.Rand, true /* is client */)
+	t := newClientTransport(tr, clientVersion, serverVersion, &conf, "verif:22", &net.TCPAddr{IP: net.IPv4(127, 0, 0, 1), Port: 22})
+	return &VerifHandshake{t: t, tr: tr}
+}
+
+// VerifNewServerHandshake mirrors NewServerConn / connection.serverHandshake after exchangeVersions.
+func VerifNewServerHandshake(conn io.ReadWriteCloser, clientVersion, serverVersion []byte, config *ServerConfig) *VerifHandshake {
+	conf := *config
+	conf.SetDefaults()
+	if len(conf.PublicKeyAuthAlgorithms) == 0 {
+		conf.PublicKeyAuthAlgorithms = defaultPubKeyAuthAlgos
+	}
+	tr := newTransport(conn, conf.Rand, false /* not client */)
+	t := newServerTransport(tr, clientVersion, serverVersion, &conf)
+	return &VerifHandshake{t: t, tr: tr}
+}
+
+// WaitSession is handshakeTransport.waitSession: returns when the first key exchange completed or failed.
+func (h *VerifHandshake) WaitSession() error { return h.t.waitSession() }
+
+// SeqNums returns the transport's reader and writer sequence numbers and its strict-mode flags.
+// Only meaningful while the connection is quiescent.
+func (h *VerifHandshake) SeqNums() (read, write uint32, strict, initialKEXDone bool) {
+	return h.tr.reader.seqNum, h.tr.writer.seqNum, h.tr.strictMode, h.tr.initialKEXDone
+}
+
+func (h *VerifHandshake) ReadPacket() ([]byte, error)  { return h.t.readPacket() }
+func (h *VerifHandshake) WritePacket(p []byte) error   { return h.t.writePacket(p) }
+func (h *VerifHandshake) RequestKeyExchange()          { h.t.requestKeyExchange() }
+func (h *VerifHandshake) SessionID() []byte            { return h.t.getSessionID() }
+func (h *VerifHandshake) Close() error                 { return h.t.Close() }
